@@ -302,6 +302,19 @@ func main() {
 	errs := make([]string, len(jobs))
 	sem := make(chan struct{}, runtime.NumCPU())
 	budget := meta.budget(*tier)
+	if *tier == "thorough" {
+		// the builds run one after the other (each fills the machine with its shards): the property's budget is shared
+		// between them, so that the wall time of a thorough check is about its budget whatever the number of builds
+		nb := 0
+		for _, b := range meta.Builds {
+			if !b.Race {
+				nb++
+			}
+		}
+		if nb > 1 {
+			budget /= nb
+		}
+	}
 	for i, j := range jobs {
 		wg.Add(1)
 		go func(i int, j job) {
